@@ -348,7 +348,7 @@ def tie_inputs(ctx, gr, search_cases, n_rule, n_file, n_mut):
         for r in ("declaration", "value", "type", "math_expr"):
             if r in gr.by:
                 out.append((r, t))
-    user = [n for n, _, _, b in gr.rules]
+    user = [n for n, _, _, b in gr.rules if not b]      # built-ins are not members of pest's Rule enum
     for r in user:
         for _ in range(n_rule):
             out.append((r, d.derive(r)))
@@ -357,7 +357,9 @@ def tie_inputs(ctx, gr, search_cases, n_rule, n_file, n_mut):
         d.derive(r)
     for _ in range(2):
         for tgt in d.uncovered():
-            out.append((tgt[0], d.derive(tgt[0], target=tgt)))
+            st = tgt[0] if tgt[0] in user else next((r for r in user if tgt[0] in gr.reach[r]), None)
+            if st is not None:
+                out.append((st, d.derive(st, target=tgt)))
     rule_cov = (len(d.covered), sum(gr.alts.values()), [list(x) for x in d.uncovered()][:10])
     for _ in range(n_file):
         d.max_depth = rng.choice([6, 8, 10, 12])
@@ -374,7 +376,7 @@ def tie_inputs(ctx, gr, search_cases, n_rule, n_file, n_mut):
             out.append((r, t[k:]))
     seen, res = set(), []
     for r, t in out:
-        if (r, t) in seen or len(t) > TIE_MAX_CHARS or nesting_depth(t) > TIE_MAX_NEST or "\x00" in t and False:
+        if (r, t) in seen or len(t) > TIE_MAX_CHARS or nesting_depth(t) > TIE_MAX_NEST:
             continue
         if any(0xD800 <= ord(c) <= 0xDFFF for c in t):
             continue
